@@ -109,6 +109,10 @@ def gen_process_item(w, m):
                                      [wg.kg_to_units(item["init_perm"][1][0], u, wg.MW[c2]), u]]
         _orders(w, item, multi, s.get("n_points", 99))
     item["cond"] = _cond(w, T, comp, steps, dt, noniso=model.endswith("noniso"))
+    if w.random() < 0.12:
+        # the same model with its permeances re-expressed in other units through the public
+        # Permeance.convert (a ProcessModel is a plain data class; units are a persisted column)
+        item["reexpress"] = w.choice(["GPU", "SI"])
     if item["cond"]["pp"] and not model.startswith("ideal") :
         item["cond"]["pp"] = min(item["cond"]["pp"], 0.1)
     return item
@@ -707,6 +711,17 @@ def execute(ctx, plan, stats=None):
 
             if k in ("save_curve", "save_fn", "save_cond"):
                 files[op["file"]] = {"kind": k[5:], "safe": op.get("safe"), "view": rep.get("view"), "complete": clean, "gen": gen, "op": op["id"]}
+            if (k == "load_membrane" or (k == "load_curve" and op.get("via_membrane"))) and kind == "ok" and not fired and "sets" in rep:
+                d = op.get("dir") or op.get("via_membrane")
+                mine = {p_: v for p_, v in files.items() if p_.startswith(d + "/diffusion_curve_sets/")}
+                if all(v["complete"] for v in mine.values()):
+                    mm = [m_ for m_ in plan["membranes"] if m_["dir"] == d]
+                    expected = sorted([s_["name"] for s_ in mm[0]["sets"]] + [os.path.basename(p_)[:-4] for p_ in mine]) if mm else None
+                    if expected is not None:
+                        st["membrane_listing_checks"] = st.get("membrane_listing_checks", 0) + 1
+                        if sorted(rep["sets"]) != expected:
+                            raise Violation("C17.roundtrip", op, {"note": "Membrane.load does not return exactly the curve sets that were saved under this membrane directory",
+                                                                  "expected_sets": expected, "loaded_sets": sorted(rep["sets"])})
             if k.startswith("load") and k != "load_membrane" and expect is not None and not fired:
                 st["roundtrips_checked"] += 1
                 if expect["gen"] != gen:
